@@ -46,7 +46,24 @@ fn gamma_fn_range() -> Option<(String, u32, u32)> {
 
 fn census_case(item: u64, rng: &mut Rng, acc: &mut Acc, range: &(String, u32, u32), quick: bool) {
     let o = GraphOpts::std(if quick { 6 } else { 8 });
-    let Some(su) = Setup::random(rng, &o, 2, 4) else {
+    let su = if (item / 2) % 3 == 0 {
+        // one sub-divergence almost logarithmic (sub-dod 2^-7 .. 2^-10)
+        let Some((mut g, name)) = gen::accepted_graph(rng, &o) else {
+            acc.count("setup_failed");
+            return;
+        };
+        let mut name = name;
+        if let Some((w, min)) = gen::extreme_marginal_with(rng, &g, &[7, 8, 10], 44) {
+            g.weights = w;
+            name.push_str("+deep_marginal");
+            acc.count("census_graphs_with_sub_dod_below_0.01");
+            acc.max("census_smallest_sub_dod_inverse", 1.0 / min);
+        }
+        Setup::from_graph(rng, g, name, 2, 4)
+    } else {
+        Setup::random(rng, &o, 2, 4)
+    };
+    let Some(su) = su else {
         acc.count("setup_failed");
         return;
     };
@@ -156,6 +173,7 @@ fn dd_case(item: u64, rng: &mut Rng, acc: &mut Acc) {
     let mut o = GraphOpts::std(6);
     o.d_choices = vec![6];
     o.max_loops = 4;
+    o.big_loop_prob = 0.0;
     let Some((g, name)) = gen::accepted_graph(rng, &o) else {
         acc.count("setup_failed");
         return;
